@@ -301,7 +301,8 @@ _SUB_CACHE_REPO = set()
 
 
 class MethodAnalysis:
-    def __init__(self, repo, fn: FunctionInfo, directed: bool, valuation=None, trusted_params=(), writer_methods=(), readonly_methods=(), cname=None, depth=0, param_values=None):
+    def __init__(self, repo, fn: FunctionInfo, directed: bool, valuation=None, trusted_params=(), writer_methods=(), readonly_methods=(), cname=None, depth=0, param_values=None, pre_established=()):
+        self._pre_established = tuple(pre_established)
         self.param_values = dict(param_values or {})  # parameter name -> initial symbolic value (collections of validated sets)
         self.cname = cname or (fn.cls.name if fn.cls is not None else None)
         self.depth = depth
@@ -321,6 +322,7 @@ class MethodAnalysis:
         self.loop_counter = 0
         self.if_counter = 0
         self.established = set()  # (table, term) keys known present / accepted; ("!table", term) keys known absent
+        self.established |= set(getattr(self, '_pre_established', ()))
         self.clobbers = []  # (table, key term, stmt): stores under a key whose presence is unknown
         self.cover_clobbers = []  # ... where the key may have been created earlier in this very call
         self.test_alias = {}  # local flag name -> the membership test it was assigned from
@@ -1270,10 +1272,12 @@ class MethodAnalysis:
         trusted = tuple(pn for pn, a in argmap.items() if self.arg_validated(a))
         pvals = {pn: Coll(a.valid, 0) for pn, a in argmap.items() if isinstance(a, Coll)}
         consts = {pn: a.const for pn, a in argmap.items() if isinstance(a, Sc) and a.const is not None and isinstance(a.const, (str, bool, int))}
-        ckey = (self.repo.digest(), callee.fq, trusted, self.directed, self.cname, tuple(sorted(self.writer_methods)), tuple(sorted((k, v.valid) for k, v in pvals.items())), tuple(sorted(consts.items())))
+        # keys the caller has already established (stored / tested present) stay established inside the helper
+        pre = tuple(sorted((t, f"P:{pn}") for pn, a in argmap.items() if isinstance(a, (Sc, CallerData)) for t in ("N", "E", "NATTR", "EATTR") if (t, a.term) in self.established))
+        ckey = (self.repo.digest(), callee.fq, trusted, self.directed, self.cname, tuple(sorted(self.writer_methods)), tuple(sorted((k, v.valid) for k, v in pvals.items())), tuple(sorted(consts.items())), pre)
         sub = _SUB_CACHE.get(ckey)
         if sub is None:
-            sub = MethodAnalysis(self.repo, callee, self.directed, dict(consts), trusted_params=trusted, writer_methods=self.writer_methods, cname=self.cname, depth=self.depth + 1, param_values=pvals)
+            sub = MethodAnalysis(self.repo, callee, self.directed, dict(consts), trusted_params=trusted, writer_methods=self.writer_methods, cname=self.cname, depth=self.depth + 1, param_values=pvals, pre_established=pre)
             sub.helper_post = self.helper_post
             try:
                 sub.run()
